@@ -66,6 +66,19 @@ func str(bs []int) string {
 	return string(b)
 }
 
+// diNodeNames are the names whose !-token the grammar reserves for specialised metadata nodes.
+var diNodeNames = func() map[string]bool {
+	m := map[string]bool{}
+	for _, n := range []string{"DIArgList", "DIBasicType", "DICommonBlock", "DICompileUnit", "DICompositeType", "DIDerivedType", "DIEnumerator",
+		"DIExpression", "DIFile", "DIGlobalVariable", "DIGlobalVariableExpression", "DIImportedEntity", "DILabel", "DILexicalBlock",
+		"DILexicalBlockFile", "DILocalVariable", "DILocation", "DIMacro", "DIMacroFile", "DIModule", "DINamespace", "DIObjCProperty",
+		"DIStringType", "DISubprogram", "DISubrange", "DISubroutineType", "DITemplateTypeParameter", "DITemplateValueParameter",
+		"GenericDINode", "DIGenericSubrange"} {
+		m[n] = true
+	}
+	return m
+}()
+
 // shape abstracts a byte string for failure signatures.
 func shape(b string) string {
 	if b == "" {
@@ -82,6 +95,9 @@ func shape(b string) string {
 			return "all digits"
 		}
 		return "all digits beyond uint64"
+	}
+	if diNodeNames[b] {
+		return "specialised metadata node name"
 	}
 	if len(b) > 1 && (b[0] == '-' || b[0] == '+') {
 		num := true
@@ -905,7 +921,7 @@ func (c *checker) idsStayIDs() {
 // ---------------------------------------------------------------------------
 // byte strings
 
-var classReps = []byte{'a', 'C', 'z', '5', '2', '$', '-', '.', '_', ' ', '%', '"', '\\', 0x01, 0x7F, 0x80, 0xFF, 0x00}
+var classReps = []byte{'a', 'C', 'z', '0', '5', '2', '$', '-', '.', '_', ' ', '%', '"', '\\', 0x01, 0x7F, 0x80, 0xFF, 0x00}
 
 func stringsOfLen(alphabet []byte, n int) []string {
 	var out []string
@@ -935,6 +951,16 @@ func stringsUpTo(alphabet []byte, n int) []string {
 
 var extras = []string{
 	`\5C`, `\\`, `\2`, `\zz`, `\5z`, `\4_`, `x\5zz`, `\4\4z`, `\\\5z`, `\22`, `a\41b`, `\5c5C`, `\\5C`, `a\`, `\0`, `\00`, `"\22"`, `a"b`, `\"`,
+	// names that read as zero or as a number with a sign
+	"-0", "-00", "+0", "-0a", "0-", "-5", "+5", "-18446744073709551616",
+	// keywords and tokens of the surrounding grammar used as names
+	"null", "true", "false", "void", "x", "c", "to", "label", "undef", "poison", "zeroinitializer", "none", "type", "opaque",
+	"global", "constant", "define", "declare", "any", "comdat", "float", "double", "ptr", "i1", "i8", "metadata", "distinct", "asm", "attributes", "target",
+	"DIBasicType", "DICommonBlock", "DICompileUnit", "DICompositeType", "DIDerivedType", "DIEnumerator", "DIExpression", "DIFile",
+	"DIGlobalVariable", "DIGlobalVariableExpression", "DIImportedEntity", "DILabel", "DILexicalBlock", "DILexicalBlockFile",
+	"DILocalVariable", "DILocation", "DIMacro", "DIMacroFile", "DIModule", "DINamespace", "DIObjCProperty", "DIStringType",
+	"DISubprogram", "DISubrange", "DISubroutineType", "DITemplateTypeParameter", "DITemplateValueParameter", "GenericDINode",
+	"DIArgList", "DIGenericSubrange", "DILocationX", "dilocation",
 	"%", "%%", "%s", "%d", "%v", "%!", "a%", "100%", "%!s(MISSING)", "%%%", "%5C", "a%20b", "%\\",
 	"0", "1", "42", "007", "00", "1a", "2b", "1_", "9.5", "1e5", "0x1F", "-1", "-", "a.b", "struct.foo", "a-b$c_d",
 	"4294967295", "4294967296", "9223372036854775807", "9223372036854775808", "18446744073709551615", "18446744073709551616", "99999999999999999999",
